@@ -447,13 +447,12 @@ func (g *generator) declareReference(v cue.Value, defV cue.Value) (ast.Type, err
 	referenceRootValue, path := v.ReferencePath()
 
 	// only regular fields and definitions can be named (see selectorLabel):
-	// a reference to a hidden field, a hidden definition or a comprehension
-	// variable is reported instead of panicking in the naming function.
-	for _, sel := range path.Selectors() {
-		if sel.Type().ConstraintType() == cue.PatternConstraint {
-			continue
-		}
-		if labelType := sel.LabelType(); labelType != cue.StringLabel && labelType != cue.DefinitionLabel {
+	// a reference whose last selector is a hidden field, a hidden definition
+	// or a comprehension variable is reported instead of panicking in the
+	// naming function.
+	if selectors := path.Selectors(); len(selectors) != 0 {
+		last := selectors[len(selectors)-1]
+		if labelType := last.LabelType(); last.Type().ConstraintType() != cue.PatternConstraint && labelType != cue.StringLabel && labelType != cue.DefinitionLabel {
 			return ast.Type{}, errorWithCueRef(v, "unsupported reference to a hidden field or a local variable: %s", path.String())
 		}
 	}
